@@ -335,7 +335,7 @@ def strategy():
 
 def shards(tier):
     n = 16 if tier == 'quick' else 64
-    return [{'examples': 250 if tier == 'quick' else 1500, 'replay_seeds': 2 if tier == 'quick' else 4} for _ in range(n)]
+    return [{'examples': 500 if tier == 'quick' else 3000, 'replay_seeds': 2 if tier == 'quick' else 4} for _ in range(n)]
 
 
 def run_shard(spec, ctx):
